@@ -46,6 +46,11 @@ impl Procedure {
     pub fn callset(&self) -> &CallSet {
         &self.callset
     }
+
+    /// Adds all procedures from the specified callset to the callset of this procedure.
+    pub(crate) fn extend_callset(&mut self, other: &CallSet) {
+        self.callset.append(other);
+    }
 }
 
 // NAMED PROCEDURE
